@@ -102,7 +102,11 @@ func TestVerifC04(t *testing.T) {
 		},
 		EnumAt: func(tier string, i int) []int {
 			c := c04Cases[i]
-			return []int{1, c.p, c.c1, c.c2}
+			// workers, station key (any value), mode = enumerated, parameter set, cuts
+			return []int{1, 4242, 1, c.p, c.c1, c.c2}
+		},
+		EnumLabels: func(string, int) []string {
+			return []string{"workers", "station-key", "mode", "paramset", "cut1", "cut2"}
 		},
 		Runs: map[string]int{"quick": 4000, "thorough": 400000},
 		Real: []string{"cmd/application handleNewTCPConn (accumulate-and-retry read loop, MarkActive)", "min / prefix / obfs4 station transports and the matching real client transports (WrapConn produces every flight)", "pkg/station/lib Proxy / halfPipe relay", "RegistrationManager, ingest pipeline (HandleRegUpdates), RemoveOldRegistrations"},
